@@ -17,6 +17,9 @@ def check(run):
     run.tlc_mc("XState.tla", "MC_XState_miner.cfg", timeout=3000)
     plans = [dict(num=90, ops=22, maxb=8, driver_args=["-replica"], batch=120)] if quick else \
             [dict(num=900, ops=24, maxb=8, driver_args=["-replica"], batch=150), dict(num=400, ops=34, maxb=11, driver_args=["-replica"], batch=150)]
+    # a chain with 1 MB blocks and 300 KB transactions: the pool exceeds the block budget, packBlock takes a prefix
+    bigtx = '{"b1", "b2", "b3", "s4", "t1", "t2", "p1", "p2"}'
+    plans.append(dict(num=40 if quick else 400, ops=20, maxb=8, txs=bigtx, budget=8, driver_args=["-replica", "-maxmb", "1"], batch=100))
     groups = xc.gen(run, plans, cfg="Gen_XState_miner.cfg")
     xc.replay_validate(run, groups)
     # engine level: the real Miner.mining round and the real ProcBlock pipeline on peers' chains
@@ -30,9 +33,12 @@ def check(run):
     run.samples = behs[:2]
     run.cov["op_mix"] = dict(st)
     run.cov["mined_block_sizes"] = sorted({len(o.get("txs") or []) for o in mined})
+    big = {"b1", "b2", "b3"}
+    run.cov["mined_with_budget_reached"] = sum(1 for b in behs for i, o in enumerate(b) if o["op"] == "mine" and len(big & set(o.get("txs") or [])) == 2)
     run.assumptions += ["the iteration orders of the pool (Go map iteration) are sampled, not enumerated: each mined block records the "
                         "order the real pool yielded", "the timer transaction is empty in these scenarios (no timer tasks); the block size "
                         "limit is never reached", "the block's consensus fields are those of the single-miner fixture"]
     run.finish(require={"mined_blocks": (len(mined), 40), "mined_with_3_or_more_txs": (sum(1 for o in mined if len(o.get("txs") or []) >= 3), 10),
                         "replicas": (run.cov.get("real_replicas", 0), 40),
+                        "mined_with_budget_reached": (run.cov.get("mined_with_budget_reached", 0), 3),
                         "engine_pushes": (run.cov.get("real_pushes", 0), 100), "engine_mining_rounds": (est.get("mine:ok", 0), 5)})
